@@ -493,3 +493,8 @@ B("dlin-square_redc-while-le", ["C11"],
   [("src/algorithms/mul_redc.rs", _SQ_FOR, "        let mut j = 1;\n        while j <= N {\n            let (value, next_carry) = carrying_mul_add(modulus[j], m, result[j], carry);\n            result[j - 1] = value;\n            carry = next_carry;\n            j += 1;\n        }\n")], "square_redc")
 B("dlin-square_redc-while-ne-from-zero", ["C11"],
   [("src/algorithms/mul_redc.rs", _SQ_FOR, "        let mut j = 0;\n        while j != N {\n            let (value, next_carry) = carrying_mul_add(modulus[j], m, result[j], carry);\n            result[j.wrapping_sub(1) % N] = value;\n            carry = next_carry;\n            j += 2;\n        }\n")], "square_redc")
+# ---- linear preconditions proved at call sites (adc_n / sbb_n: rhs at least as long as lhs)
+B("dlin-adc_n-shorter-rhs", ["C14"],
+  [("src/algorithms/div/knuth.rs", "            let carry = adc_n(&mut numerator[j..j + n], &divisor[..n], 0);\n            // Expect carry because we flip sign back to positive.\n            debug_assert_eq!(carry, 1);\n        }\n\n        // Store quotient in the unused bits of numerator",
+    "            let carry = adc_n(&mut numerator[j..j + n], &divisor[..n - 1], 0);\n            // Expect carry because we flip sign back to positive.\n            debug_assert_eq!(carry, 1);\n        }\n\n        // Store quotient in the unused bits of numerator")],
+  "adc_n requires")
